@@ -20,6 +20,8 @@ R19.f  without recirculation the per-job machine pool is re-created for each
 R19.g  shape: one job per ``range(num_jobs)`` step, one operation per
        ``range(num_machines)`` step; sizes and durations are drawn from the
        configured ranges.
+R19.i  read-only configuration: outside the constructors, generator methods
+       write only the name counter and the iteration state.
 R19.h  distinct machines: nothing sampled with replacement (``choices``, a
        loop of single draws without removal / membership test) reaches
        ``Operation(machines=...)``.
@@ -42,7 +44,7 @@ MANIFEST = {
         "equal sequences; the name counter only increases and is embedded in "
         "each name; the iterator yields exactly iteration_limit instances per "
         "pass; the no-recirculation pool is per job with removal; the loops "
-        "produce num_jobs x num_machines operations with range-drawn durations; the machine list of a flexible operation is never sampled with replacement. "
+        "produce num_jobs x num_machines operations with range-drawn durations; the machine list of a flexible operation is never sampled with replacement; generating never rewrites the generator's configuration. "
         "Not decided: that sampled values lie in their ranges (values)."
     ),
     "note": "random.Random's determinism for a given seed and call order is trusted.",
